@@ -61,3 +61,8 @@
 ; recurrence instantiated at the loop counter).
 (declare-const wfsum Bool)
 (declare-fun psum ((_ BitVec 64)) (_ BitVec 64))
+
+; Ghost witnesses for "data is the encoding of a time": seconds and nanoseconds
+(declare-const wftime Bool)
+(declare-const gsec (_ BitVec 64))
+(declare-const gnanos (_ BitVec 32))
